@@ -68,6 +68,18 @@ def response_forms(df, meta, rng):
     for fn in ("prop", "p", "proportion"):
         forms.append((f"{fn}(succ, tr)", "proportion", np.column_stack([succ, tr]).astype(float)))
         forms.append((f"{fn}(succ, {const})", "proportion", np.column_stack([succ, np.full(n, const)]).astype(float)))
+    # narrow integer dtypes for the successes, trials beyond their range
+    n_big = 300
+    for dt in ("uint8", "int8", "int16"):
+        forms.append((f"prop(succ_{dt}, tr_big)", "proportion", np.column_stack([succ, np.full(n, n_big + 1)]).astype(float)))
+        forms.append((f"prop(succ_{dt}, {n_big})", "proportion", np.column_stack([succ, np.full(n, n_big)]).astype(float)))
+    # redundant parentheses / unary plus around the response change nothing
+    wrapped = []
+    for text, kind, want in forms:
+        if text in ("y", "np.log(w)", "prop(succ, tr)", "yb") or (kind == "level" and rng.random() < 0.5):
+            wrapped.append((f"({text})", kind, want))
+            wrapped.append((f"+{text}", kind, want))
+    forms += wrapped
     forms.append((None, "none", None))
     return forms
 
@@ -113,6 +125,9 @@ def judge(case, m):
         cats = list(df["co"].dtype.categories)
         df["co"] = pd.Categorical(df["co"].tolist(), categories=cats[:1] + ["never seen"] + cats[1:], ordered=True)
         meta["co"]["levels"] = cats[:1] + ["never seen"] + cats[1:]
+    for dt in ("uint8", "int8", "int16"):
+        df[f"succ_{dt}"] = df["succ"].astype(dt)
+    df["tr_big"] = np.full(len(df), 301, dtype="int64")
     ns = D.namespace(meta)
     rhs_case = {**case, "resp": None}
     rhs = D.formula_text(rhs_case)
@@ -197,7 +212,10 @@ def judge(case, m):
             elif kind == "numeric" and not np.allclose(np.asarray(dm.response.design_matrix, dtype=float).reshape(n), want):
                 m.violation("numeric-unchanged", f"'{formula}': response values changed", case={**case, "text": formula}, key="numeric")
     # refused forms
-    for lhs in ("x:z", "x + z", "x*z", "(x | g)", "1", "0", "s:h"):
+    lv_s = meta["s"]["levels"]
+    two = [l for l in lv_s if "'" not in str(l)][:2]
+    extra_refused = [f"s['{two[0]}']:s['{two[-1]}']", f"s:s['{two[0]}']", f"yb['yes']:yb"] if len(two) == 2 and two[0] != two[-1] else ["yb['yes']:yb"]
+    for lhs in ["x:z", "x + z", "x*z", "(x | g)", "1", "0", "s:h"] + extra_refused:
         m.ev("single-term-response")
         try:
             formulae.design_matrices(f"{lhs} ~ {rhs}", df, extra_namespace=ns)
